@@ -101,9 +101,28 @@ pub fn search(_obl: &str) -> Vec<Witness> {
             other => { found.push(Witness { property: "C11", input: format!("inject-pg:{lab}"), observed: format!("postgres: inject_parameters({sql:?}) = {other:?}"), expected: inl }); if found.len() >= 6 { return found; } }
         }
     }
+    // a placeholder designates a supplied EXPRESSION: it must be replaced by that expression AS THE BACKEND RENDERS IT (oracle: the same
+    // expression rendered on its own by the same backend) - in particular through the backend's own overrides (Postgres: enum casts)
+    let exprs: Vec<(&str, SimpleExpr)> = vec![
+        ("enum cast", Expr::val("happy").as_enum(Alias::new("mood"))), ("column", Expr::col(Alias::new("c")).into()), ("sum", Expr::col(Alias::new("a")).add(1)),
+        ("function", Func::lower(Expr::col(Alias::new("c"))).into()), ("text", Expr::val("it's").into())];
+    for (lab, e) in exprs {
+        for (tpl, how) in [("f($1) = $1", "numbered"), ("f(?) = ?", "positional")] {
+            let alone = |b: usize| match b { 0 => Query::select().expr(e.clone()).to_owned().to_string(MysqlQueryBuilder), 1 => Query::select().expr(e.clone()).to_owned().to_string(PostgresQueryBuilder), _ => Query::select().expr(e.clone()).to_owned().to_string(SqliteQueryBuilder) };
+            for b in 0..3usize {
+                if (how == "numbered") != (b == 1) { continue; }
+                let own = alone(b); let own = own.strip_prefix("SELECT ").unwrap_or(&own).to_string();
+                let vals: Vec<SimpleExpr> = if how == "numbered" { vec![e.clone()] } else { vec![e.clone(), e.clone()] };
+                let q = Query::select().expr(Expr::cust_with_exprs(tpl, vals)).to_owned();
+                let got = match b { 0 => q.to_string(MysqlQueryBuilder), 1 => q.to_string(PostgresQueryBuilder), _ => q.to_string(SqliteQueryBuilder) };
+                let want = format!("SELECT f({own}) = {own}");
+                if got != want { found.push(Witness { property: "C11", input: format!("expr-value:{lab} in `{tpl}` [{}]", ["mysql", "postgres", "sqlite"][b]), observed: got, expected: want }); if found.len() >= 6 { return found; } }
+            }
+        }
+    }
     found
 }
-pub fn check_one(label: &str) -> Option<Witness> { if label.starts_with("inject:") || label.starts_with("inject-pg:") { search("").into_iter().find(|w| w.input == label) } else {
+pub fn check_one(label: &str) -> Option<Witness> { if label.starts_with("inject:") || label.starts_with("inject-pg:") || label.starts_with("expr-value:") { search("").into_iter().find(|w| w.input == label) } else {
     std::panic::set_hook(Box::new(|_| {}));
     let t = if label.starts_with("cust_with_") { label.split_once(": ").map(|x| x.1).unwrap_or(label) } else { label };
     check_template(t)
